@@ -19,6 +19,8 @@ def run(chk, tier):
     chk.rule("R-ERRNO", "every failure return of an entry point has errno set on its path")
     nh = bind.run(chk, P, E)
     chk.floor("R-BIND", "indirect binding hook call sites", nh, 26)
+    nde = bind.dispatch_exclusive(chk, P)
+    chk.floor("R-BIND", "explicit-target scenarios (function x PROCESS/THREAD)", nde, 8)
     chk.rule("R-PAIR", "x86 discovery restores the binding it saved on every path (look_procs), OS state save/restore paired")
     pair.run_c10(chk, P, E)
     chk.decided += ["unknown flag bits rejected with EINVAL before any effect (all entry points, all words)",
